@@ -78,6 +78,17 @@ fn judge(rep: &mut Report, sig: &str, mon: &str, case: u64, cfg: &serde_json::Va
             }
             continue;
         }
+        // a replicate-based standard error is only trustworthy if the per-chain values are not
+        // dominated by rare events (e.g. tail frequencies of a sticky chain: most chains see none,
+        // one chain that starts in the tail sees almost only those): skip such statistics
+        let lo = s.reps.iter().cloned().fold(f64::INFINITY, f64::min);
+        let at_lo = s.reps.iter().filter(|x| **x == lo).count();
+        let m4 = s.reps.iter().map(|x| (x - m).powi(4)).sum::<f64>() / r as f64;
+        let kurt = m4 / (v * v * ((r - 1) as f64 / r as f64).powi(2));
+        if at_lo * 5 > r * 2 || kurt > 12.0 {
+            rep.count("statistics_skipped_heavy_tailed_across_replicates");
+            continue;
+        }
         let z = (m - s.truth) / se;
         worst = worst.max(z.abs() / t_threshold(r - 1));
         table.push(json!({"stat": s.name, "estimate": m, "truth": s.truth, "se": se, "z": z}));
@@ -110,6 +121,7 @@ impl<F: Fl> Target<F, F> for DenseGauss {
 struct ArProposal<F> {
     rho: F,
     s: F,
+    centre: Vec<F>,
     rng: SmallRng,
 }
 impl<F: Fl> Proposal<F, F> for ArProposal<F>
@@ -117,12 +129,12 @@ where
     StandardNormal: Distribution<F>,
 {
     fn sample(&mut self, current: &[F]) -> Vec<F> {
-        current.iter().map(|x| { let z: F = self.rng.sample(StandardNormal); self.rho * *x + self.s * z }).collect()
+        current.iter().zip(&self.centre).map(|(x, c)| { let z: F = self.rng.sample(StandardNormal); *c + self.rho * (*x - *c) + self.s * z }).collect()
     }
     fn logp(&self, from: &[F], to: &[F]) -> F {
         let mut lp = F::zero();
-        for (f, t) in from.iter().zip(to) {
-            let d = *t - self.rho * *f;
+        for ((f, t), c) in from.iter().zip(to).zip(&self.centre) {
+            let d = *t - (*c + self.rho * (*f - *c));
             lp = lp - d * d / (F::of(2.0) * self.s * self.s);
         }
         lp
@@ -150,7 +162,12 @@ where
         "replicates": r, "draws_per_chain": n, "n_discard": n_discard, "seed": seed});
     rep.distinct(("mh-gauss", F::NAME, d, asym, n_discard, case));
     let arr = if asym {
-        let p = ArProposal { rho: F::of(g.uniform(0.3, 0.9)), s: F::of(g.uniform(0.5, 1.5)), rng: SmallRng::seed_from_u64(1) };
+        // centred at the target mean, stationary spread s/sqrt(1-rho^2) at least 1.3 target sd:
+        // asymmetric (the Hastings term matters) without being sticky in the tails
+        let rho = g.uniform(0.3, 0.9);
+        let sd_max = (0..d).map(|i| t.cov[i * d + i].sqrt()).fold(0.0, f64::max);
+        let s_ar = g.uniform(1.3, 2.5) * sd_max * (1.0 - rho * rho).sqrt();
+        let p = ArProposal { rho: F::of(rho), s: F::of(s_ar), centre: t.mean.iter().map(|m| F::of(*m)).collect(), rng: SmallRng::seed_from_u64(1) };
         guard(|| MetropolisHastings::new(t.clone(), p, inits.clone()).seed(seed).run(n, n_discard).unwrap())
     } else {
         let p = IsotropicGaussian::<F>::new(F::of(g.uniform(0.4, 1.6) / (d as f64).sqrt()));
